@@ -888,6 +888,59 @@ def install_reports(reg):
         note="every expanded node is asked for its seeds (computed if missing); nodes without attractors are left out of the dictionary; by I-cache "
              "each reported list is a system of distinct representatives of the attractors owned by its node"), method_of="SD")
 
+    # ---- expanded_attractor_candidates: same loop over node_attractor_candidates (C08: collectively, every attractor owned by an expanded
+    # node has a candidate in the node's entry; a node without an entry owns no attractor)
+    from .attractors import args_of
+
+    def rep(v, n):
+        """the list node_attractor_candidates reports for node n: the cached candidates, or the seeds once the candidates were dropped"""
+        return z3.If(OptLS.is_none(v.cand[n]), OptLS.val(v.seeds[n]), OptLS.val(v.cand[n]))
+
+    def has_list(v, n):
+        return z3.Not(z3.And(OptLS.is_none(v.cand[n]), OptLS.is_none(v.seeds[n])))
+
+    def cands_inv(c):
+        v, e, res = c.self, c.at_entry(0).self, c.res
+        return [("inv." + nm, g) for nm, g in S.inv(v)] + [
+            ("only_caches_change", z3.And(v.K == e.K, v.index == e.index, S.frame_edges(v, e), v.net == e.net, v.sym == e.sym, v.pn == e.pn,
+                                          S.frame_nodes(v, e, fields=("space", "expanded", "skipped", "parent", "succsig", "depth")))),
+            ("known_lists_are_kept", z3.ForAll([i_], z3.Implies(z3.And(S.valid(e, i_), has_list(e, i_)), z3.And(has_list(v, i_), rep(v, i_) == rep(e, i_))))),
+            ("stubs_are_left_alone", z3.ForAll([i_], z3.Implies(z3.And(S.valid(e, i_), z3.Not(e.expanded[i_])), z3.And(
+                v.cand[i_] == e.cand[i_], v.seeds[i_] == e.seeds[i_], v.sets[i_] == e.sets[i_])))),
+            ("reported_so_far", z3.ForAll([i_], z3.And(
+                DS.dom(res)[i_] == z3.Exists([a], z3.And(0 <= a, a < c.i, LI.at(c.coll)[a] == i_, has_list(v, i_), LS.len(rep(v, i_)) > 0)),
+                z3.Implies(DS.dom(res)[i_], DS.vals(res)[i_] == rep(v, i_))))),
+            ("visited_have_a_list", z3.ForAll([a], z3.Implies(z3.And(0 <= a, a < c.i), has_list(v, LI.at(c.coll)[a])))),
+            ("configuration_kept", z3.And(*[getattr(v, "cfg_" + k2) == getattr(e, "cfg_" + k2) for k2 in M.CONFIG_KEYS])),
+        ]
+
+    def cands_post(c):
+        v, e, r = c.self, c.old.self, c.result
+        return [("maps_every_expanded_node_with_candidates_to_its_list", z3.ForAll([i_], z3.And(
+                    DS.dom(r)[i_] == z3.And(S.valid(v, i_), v.expanded[i_], has_list(v, i_), LS.len(rep(v, i_)) > 0),
+                    z3.Implies(DS.dom(r)[i_], DS.vals(r)[i_] == rep(v, i_))))),
+                ("list_known_for_every_expanded_node", z3.ForAll([i_], z3.Implies(z3.And(S.valid(v, i_), v.expanded[i_]), has_list(v, i_)))),
+                ("the_list_of_every_expanded_node_covers_its_attractors", z3.ForAll([i_], z3.Implies(
+                    z3.And(S.valid(v, i_), v.expanded[i_]), S.Covers(*args_of(v, i_), rep(v, i_))))),
+                ("stubs_are_left_alone", z3.ForAll([i_], z3.Implies(z3.And(S.valid(e, i_), z3.Not(e.expanded[i_])), z3.And(
+                    v.cand[i_] == e.cand[i_], v.seeds[i_] == e.seeds[i_], v.sets[i_] == e.sets[i_])))),
+                ("invariant_kept", S.inv_all(v))]
+
+    reg.add(Contract(
+        "biobalm.succession_diagram.SuccessionDiagram.expanded_attractor_candidates", params=[("self", SD)], result_type=DS,
+        properties=("C08", "C14", "C20"),
+        requires=[lambda c: S.inv_all(c.self), lambda c: z3.And(c.self.cfg_attractor_candidates_limit >= 0, c.self.cfg_minimum_simulation_budget >= 0)],
+        modifies={"self": ["cand", "seeds", "sets", "ppn", "pbn", "pnfvs"]},
+        ensures=[(nm, (lambda k2: (lambda c: dict(cands_post(c))[k2]))(nm)) for nm in
+                 ["maps_every_expanded_node_with_candidates_to_its_list", "list_known_for_every_expanded_node",
+                  "the_list_of_every_expanded_node_covers_its_attractors", "stubs_are_left_alone", "invariant_kept"]],
+        raises={"RuntimeError": []}, may_raise={"RuntimeError": {"modifies": {"self": ["cand", "seeds", "sets", "ppn", "pbn", "pnfvs"]}}},
+        local_types={"res": DS, "atts": LS},
+        loops={0: LoopContract("for id in self.expanded_ids()", cands_inv, havoc_heap={"self": ["cand", "seeds", "sets", "ppn", "pbn", "pnfvs"]})},
+        note="every expanded node is asked for its candidates (computed if missing); the dictionary maps exactly the expanded nodes whose list "
+             "(cached candidates, or the seeds once the candidates were dropped) is not empty to that list; by I-cache the list of a node covers "
+             "every attractor the node owns, so a node without an entry owns none"), method_of="SD")
+
     # ---- expanded_attractor_sets: same shape over the cached attractor sets
     OptLV, LV = M.OptLV, M.LV
     DV = M.TDict(TInt, LV)
